@@ -12,6 +12,7 @@
    OnchainTxHandler's package bookkeeping, anchor bumping with wallet inputs. -/
 import LdkModel.Proofs.Package
 import LdkModel.Proofs.OnchainClaims
+import LdkModel.Proofs.ClaimTime
 namespace Ldk.C07
 open Ldk Ldk.Pkg Ldk.Onchain
 
@@ -459,10 +460,10 @@ theorem spendable_exactly_when_final (c : CloseCfg) (height : Nat) (items : List
 
 -- Alice (our_to_self_delay 720) closes on Bob (432): her balance confirmed at 100 is spendable from
 -- the block at height 100 + 432 − 1, not one block earlier; closed on BY Bob: after 6 confirmations
-example : let l := closeWith ⟨true, 720, 432⟩ 100 [⟨.toSelf, 50000, 0, 0, none⟩]
+example : let l := closeWith ⟨true, 720, 432, false⟩ 100 [⟨.toSelf, 50000, 0, 0, none⟩]
     balances l = [⟨.awaitingConfirmations 531, 50000⟩] ∧
     spendableTotal (step l (.block 530)) = 0 ∧ spendableTotal (step l (.block 531)) = 50000 := by decide
-example : let l := closeWith ⟨false, 720, 432⟩ 100 [⟨.toSelf, 50000, 0, 0, none⟩]
+example : let l := closeWith ⟨false, 720, 432, false⟩ 100 [⟨.toSelf, 50000, 0, 0, none⟩]
     balances l = [⟨.awaitingConfirmations 105, 50000⟩] ∧ spendableTotal (step l (.block 105)) = 50000 := by decide
 
 /-! ### A preimage learned AFTER the commitment confirmed claims EVERY output with that hash
@@ -476,7 +477,9 @@ open Ldk.PreimageClaims
     repeat: parts of one multi-part payment over the channel, a reused hash), whichever side's
     commitment closed the channel: once the preimage of hash `m` is provided, EVERY still-unspent
     inbound HTLC output carrying hash `m` — not only the first one in the commitment's HTLC list —
-    is claimable by the node (a claim package is pending) and is reported `ContentiousClaimable`. -/
+    is claimable by the node (a claim package is pending) and is reported `ContentiousClaimable`.  "Whichever side's
+    commitment" includes the counterparty's PREVIOUS, not yet revoked commitment (`hl.cfg.counterpartyPrev`): the proof reads
+    the translated `counterpartyScanOnPrevious` / `counterpartyScanOnCurrent` / `holderScanRuns`. -/
 theorem late_preimage_claims_every_match (hl : HLedger) (m i : Nat) (e : Entry)
     (he : hl.ledger.entries[i]? = some e) (hh : hl.hashes[i]? = some m)
     (hin : e.item.inbound = true) (hs : e.stage = .pending) :
@@ -488,11 +491,14 @@ theorem late_preimage_claims_every_match (hl : HLedger) (m i : Nat) (e : Entry)
     unfold preimageScanAccepts
     simp only [hin, Bool.true_and]
     cases hl.cfg.holderClose <;> simp [holderClaimIncluded, counterpartyPreimageMatches]
-  have hsel : (selectIdx (if hl.cfg.holderClose then holderPreimageIter else counterpartyPreimageIter)
-      (preimageScanAccepts hl.cfg m) (hl.ledger.entries.zip hl.hashes)).contains i = true := by
+  have hsel : (hl.sel m).contains i = true := by
     have hmode : (if hl.cfg.holderClose then holderPreimageIter else counterpartyPreimageIter) = IterMode.all := by
       cases hl.cfg.holderClose <;> rfl
-    rw [hmode]
+    have hruns : hl.cfg.scanRuns = true := by
+      unfold CloseCfg.scanRuns
+      cases hl.cfg.holderClose <;> cases hl.cfg.counterpartyPrev <;> rfl
+    unfold HLedger.sel
+    rw [hruns, if_pos rfl, hmode]
     exact selectIdx_all _ _ i (e, m) hz hacc
   refine ⟨e.learn hl.cfg, ?_, learn_kind hl.cfg e hs hin, ?_, ?_⟩
   · rw [provide_getElem?, he]
@@ -509,7 +515,7 @@ theorem late_preimage_claims_every_match (hl : HLedger) (m i : Nat) (e : Entry)
 
 -- three inbound parts with hash 7 and one HTLC with hash 9, preimages unknown at the counterparty's close:
 -- providing 7 makes all three parts claimable, 9 stays a MaybePreimageClaimableHTLC
-example : let hl := hclose ⟨false, 720, 432⟩ 100 [(⟨.toSelf, 50000, 0, 0, none⟩, 0), (⟨.inboundHtlcUnknown, 1000, 0, 150, none⟩, 7),
+example : let hl := hclose ⟨false, 720, 432, false⟩ 100 [(⟨.toSelf, 50000, 0, 0, none⟩, 0), (⟨.inboundHtlcUnknown, 1000, 0, 150, none⟩, 7),
       (⟨.inboundHtlcUnknown, 2000, 0, 150, none⟩, 9), (⟨.inboundHtlcUnknown, 3000, 0, 150, none⟩, 7), (⟨.inboundHtlcUnknown, 4000, 0, 151, none⟩, 7)]
     balances (hl.provide 7).ledger = [⟨.awaitingConfirmations 105, 50000⟩, ⟨.contentious 150, 1000⟩, ⟨.maybePreimage 150, 2000⟩,
       ⟨.contentious 150, 3000⟩, ⟨.contentious 151, 4000⟩] ∧
@@ -556,9 +562,273 @@ theorem late_preimage_conservation (c : CloseCfg) (height : Nat) (items : List (
   omega
 
 def lateDemo : HLedger :=
-  HLedger.run (hclose ⟨false, 720, 432⟩ 100 [(⟨.inboundHtlcUnknown, 1000, 0, 150, none⟩, 7), (⟨.inboundHtlcUnknown, 3000, 0, 150, none⟩, 7)])
+  HLedger.run (hclose ⟨false, 720, 432, false⟩ 100 [(⟨.inboundHtlcUnknown, 1000, 0, 150, none⟩, 7), (⟨.inboundHtlcUnknown, 3000, 0, 150, none⟩, 7)])
     [HOp.op (.block 101), HOp.provide 7, HOp.op (.claim 0 103 900), HOp.op (.claim 1 103 2800), HOp.op (.block 120)]
 example : balances lateDemo.ledger = [] ∧ spendableTotal lateDemo.ledger = 3700 ∧ feesTotal lateDemo.ledger = 300 ∧
     entitlement lateDemo.ledger = 4000 := by decide
+
+open Ldk.ClaimTime Ldk.ClaimTiming
+
+/-! ### Every claimable output is the node's once its claim confirms — exactly once; the pre-confirmation view -/
+
+/-- **claimed_exactly_once** — in ANY ledger state (any closure — holder's, counterparty's latest or previous commitment —,
+    any history of blocks, claims, counterparty claims and late preimages before), for an output the node may claim (an
+    outbound HTLC after its expiry, an inbound HTLC whose preimage is known — from the start or, by
+    `late_preimage_claims_every_match`, learned at any time while the output was unspent) that is still unspent: once the
+    node's claim confirms (at `h`, paying `net`), then WHATEVER happens afterwards (`rest`: any blocks, further claims of the
+    same output, counterparty claims of it, more preimages) the output stays the node's with exactly that value
+    (`claimed h n` until burial, `matured n` after), the item is unchanged, and any block at or above the confirmation
+    threshold hands out exactly `n = min net sat` — once: a handed-out entry is never handed out again.
+    With `claim_in_time` (the claim confirms before the expiry under the confirmation hypothesis) this is "every HTLC whose
+    preimage is known before its expiry is eventually claimed, exactly once". -/
+theorem claimed_exactly_once (hl : HLedger) (i h net : Nat) (e : Entry) (rest : List HOp)
+    (he : hl.ledger.entries[i]? = some e) (hs : e.stage = .pending) (hk : e.item.kind ≠ .inboundHtlcUnknown) :
+    let n := Nat.min net e.item.sat
+    let hl' := (hl.step (.op (.claim i h net))).run rest
+    ∃ e', hl'.ledger.entries[i]? = some e' ∧ (e'.stage = .claimed h n ∨ e'.stage = .matured n) ∧ e'.item = e.item ∧
+      ∀ H, confirmationThreshold h e.item.csv ≤ H →
+        ∃ e'', (hl'.step (.op (.block H))).ledger.entries[i]? = some e'' ∧ e''.stage = .matured n ∧ e''.spendable = n ∧
+          ∀ more, ∃ e3, ((hl'.step (.op (.block H))).run more).ledger.entries[i]? = some e3 ∧ e3.stage = .matured n := by
+  intro n hl'
+  have h0 := claim_pending hl i h net e he hs hk
+  obtain ⟨e', h1, p1, i1⟩ := hrun_fixed rest _ i h n _ h0 (Or.inl rfl)
+  refine ⟨e', h1, p1, i1, ?_⟩
+  intro H hH
+  have hb : confirmationThreshold h e'.item.csv ≤ Nat.max hl'.ledger.best H := by
+    rw [i1]
+    exact Nat.le_trans hH (Nat.le_max_right _ _)
+  have hm := bury_fixed_matured (Nat.max hl'.ledger.best H) h n e' p1 hb
+  have hget : (hl'.step (.op (.block H))).ledger.entries[i]? = some (e'.bury (Nat.max hl'.ledger.best H)) := by
+    have h1' : hl'.ledger.entries[i]? = some e' := h1
+    simp only [HLedger.step, Onchain.step, List.getElem?_map, h1', Option.map_some]
+  refine ⟨_, hget, hm, by unfold Entry.spendable; rw [hm], ?_⟩
+  intro more
+  exact matured_stays more _ i n _ hget hm
+
+-- an inbound HTLC learned late on the counterparty's PREVIOUS commitment, claimed at 103 for 900, re-claimed / contested later: 900, once
+example : let hl := (hclose ⟨false, 720, 432, true⟩ 100 [(⟨.inboundHtlcUnknown, 1000, 0, 150, none⟩, 7)]).provide 7
+    let hl' := (hl.step (.op (.claim 0 103 900))).run [.op (.peerClaim 0 104), .op (.claim 0 105 800), .provide 7, .op (.block 108), .op (.claim 0 109 1), .op (.block 400)]
+    spendableTotal hl'.ledger = 900 ∧ balances hl'.ledger = [] ∧ lostTotal hl'.ledger = 0 := by decide
+
+/-- **preclose_view_carries_over** — the pre-confirmation view (`ClaimableOnChannelClose` + per-HTLC balances; the amounts
+    and heights of its arms TRANSLATED by gen_claim_timing.py from get_claimable_balances) and the ledger agree across the
+    moment the HOLDER's commitment confirms, for EVERY balance, EVERY HTLC list, EVERY closure height and EVERY later history:
+    what the node owns before (`amount_satoshis` of ClaimableOnChannelClose = to_self + inbound HTLCs with known preimage, plus
+    the MaybeTimeoutClaimableHTLC balances) is the ledger's entitlement, hence = balances + spendable + fees + lost in every
+    state reachable after the closure; and every outbound / preimage-less inbound HTLC is reported with the same class,
+    height and amount before and right after the confirmation. -/
+theorem preclose_view_carries_over (t height : Nat) (hs : List PreHtlc) (hk : ∀ h ∈ hs, h.kind ≠ .toSelf) (ops : List Op) :
+    let l := run (close height (holderItems t hs)) ops
+    (preView t hs).owned = entitlement l ∧
+    balanceTotal l + spendableTotal l + feesTotal l + lostTotal l = (preView t hs).owned ∧
+    (∀ h ∈ hs, h.kind = .outboundHtlc ∨ h.kind = .inboundHtlcUnknown →
+      h.balance = Entry.balance ⟨h.item, .pending⟩) ∧
+    (preView t hs).onClose = t + Onchain.sum (hs.map PreHtlc.claimingSat) := by
+  intro l
+  have hc := ledger_conservation height (holderItems t hs) ops
+  have hown : (preView t hs).owned = entitlement l := by
+    rw [hc.2, preView_owned_eq t hs hk]
+    simp only [holderItems, List.map_cons, List.map_map, Onchain.sum, List.foldr_cons, Item.entitled]
+    rfl
+  refine ⟨hown, by rw [hown]; exact hc.1, ?_, rfl⟩
+  intro h _ hkind
+  obtain ⟨k, a, c⟩ := h
+  rcases hkind with hkind | hkind <;> simp only at hkind <;> subst hkind <;> rfl
+
+example : let v := preView 50000 [⟨.outboundHtlc, 3000999, 130⟩, ⟨.inboundHtlcPreimage, 2000500, 140⟩, ⟨.inboundHtlcUnknown, 1000000, 150⟩]
+    v.onClose = 52000 ∧ v.htlcs = [⟨.maybeTimeout 130, 3000⟩, ⟨.maybePreimage 150, 1000⟩] ∧ v.owned = 55000 := by decide
+
+/-! ### claim_in_time — the timing rules composed with the claim schedule, over ALL heights / expiries / arrival times
+
+    `shouldBroadcastFor` (gen_timing.py), `getHeightTimer` / `packageLocktime` / `computePackageFeerate` (gen_package.py),
+    `parksPackage` / `releasedFromPark` / `timerFires` / `firstIssueStrategy` / `timerBumpStrategy` (gen_claim_timing.py) and
+    the constants are TRANSLATED on every run; `goesOnchainAt`, `requestIssueHeight`, `issueHeights`, `issues`
+    (Model/ClaimTime.lean) only compose them over a chain whose blocks arrive one height at a time.  WHAT CONFIRMS WHEN is
+    always a hypothesis (`ConfirmsWithin`), stated in the theorem. -/
+open Ldk.ClaimTime Ldk.ClaimTiming
+
+/-- **goes_onchain_when** — for EVERY expiry `c`, EVERY height `start` from which the monitor evaluates the HTLC and every
+    horizon: the first block at which `should_broadcast_holder_commitment_txn` fires is
+    * `max start (c − CLTV_CLAIM_BUFFER)` for an inbound HTLC whose preimage the monitor holds — never later than
+      CLTV_CLAIM_BUFFER blocks before the expiry if the preimage was there by then, at once otherwise;
+    * `max start (c + LATENCY_GRACE_PERIOD_BLOCKS)` for an outbound HTLC (whatever preimages are known);
+    * never for an inbound HTLC without preimage. -/
+theorem goes_onchain_when (c start fuel : Nat) :
+    goesOnchainAt c false true start fuel =
+      (if Nat.max start (c - CLTV_CLAIM_BUFFER) < start + fuel then some (Nat.max start (c - CLTV_CLAIM_BUFFER)) else none) ∧
+    (∀ pre, goesOnchainAt c true pre start fuel =
+      (if Nat.max start (c + LATENCY_GRACE_PERIOD_BLOCKS) < start + fuel then some (Nat.max start (c + LATENCY_GRACE_PERIOD_BLOCKS)) else none)) ∧
+    goesOnchainAt c false false start fuel = none := by
+  refine ⟨?_, ?_, ?_⟩
+  · exact firstHeight_threshold _ _ (fun h => shouldBroadcast_inbound h c) fuel start
+  · intro pre
+    exact firstHeight_threshold _ _ (fun h => shouldBroadcast_outbound h c pre) fuel start
+  · exact firstHeight_never _ (fun h => shouldBroadcast_no_preimage h c) fuel start
+
+example : goesOnchainAt 500 false true 400 200 = some 464 ∧ goesOnchainAt 500 false true 480 200 = some 480 ∧
+    goesOnchainAt 500 true false 400 200 = some 503 ∧ goesOnchainAt 500 false false 400 200 = none := by decide
+
+/-- **goes_onchain_any** — with ANY set of HTLCs pending (any expiries, directions, preimage knowledge) the monitor goes on
+    chain at the earliest of the single-HTLC heights of `goes_onchain_when`: some HTLC's own deadline is met exactly, and no
+    HTLC's deadline is missed. -/
+theorem goes_onchain_any (htlcs : List ScanHtlc) (start fuel h : Nat) (hh : firstOnchain htlcs start fuel = some h) :
+    (∃ x ∈ htlcs, goesOnchainAt x.1 x.2.1 x.2.2 start fuel = some h) ∧
+    (∀ x ∈ htlcs, ∀ hx, goesOnchainAt x.1 x.2.1 x.2.2 start fuel = some hx → h ≤ hx) :=
+  firstOnchain_spec htlcs start fuel h hh
+
+example : firstOnchain [(500, false, true), (470, true, false), (520, false, false)] 400 200 = some 464 ∧
+    firstOnchain [(500, false, false), (470, true, false)] 400 200 = some 473 ∧ firstOnchain [(500, false, false)] 400 200 = none := by decide
+
+/-- **timeout_claim_not_before_locktime** — our own timeout claims are never issued before their locktime is final, and not
+    later than that either: for EVERY package and EVERY height `cur` at which the claim is requested, the height `b` at which
+    the OnchainTxHandler issues it (at once, or out of `locktimed_packages`) is exactly `max cur (package_locktime)`; the
+    transaction built THEN carries an nLockTime `≤ b` (minable in block `b + 1`); every input's CLTV requirement is `≤ b`; a
+    pre-signed holder HTLC-timeout (nLockTime = the HTLC's `cltv_expiry`) is not issued before `cltv_expiry`. -/
+theorem timeout_claim_not_before_locktime (cur fuel b : Nat) (inputs : List PkgInput)
+    (hb : requestIssueHeight cur inputs fuel = some b) :
+    b = Nat.max cur (issueLocktime cur inputs) ∧ cur ≤ b ∧
+    issueLocktime b inputs ≤ b ∧
+    (pkgSignedLocktime inputs = none → ∀ i ∈ inputs, ∀ c, minimumLocktime i = some c → c ≤ b) ∧
+    (∀ pre c rest, inputs = .holderHTLCOutput pre c :: rest → c ≤ b ∧ issueLocktime b inputs = c) := by
+  have he := requestIssueHeight_eq cur fuel b inputs hb
+  have hle := issueLocktime_le cur inputs
+  rw [← he] at hle
+  have hcur : cur ≤ b := by rw [he]; exact Nat.le_max_left _ _
+  have hlt : issueLocktime cur inputs ≤ b := by rw [he]; exact Nat.le_max_right _ _
+  refine ⟨he, hcur, hle, ?_, ?_⟩
+  · intro hs i hi c hc
+    exact Nat.le_trans (((locktime_final cur inputs).1 hs).2.1 i hi c hc) hlt
+  · intro pre c rest hi
+    have h1 := (locktime_final cur inputs).2 pre c rest hi
+    have h2 := (locktime_final b inputs).2 pre c rest hi
+    unfold issueLocktime at hlt ⊢
+    rw [h1] at hlt
+    exact ⟨hlt, h2⟩
+
+example : requestIssueHeight 100 [.counterpartyReceivedHTLCOutput 130] 100 = some 130 ∧
+    requestIssueHeight 100 [.counterpartyReceivedHTLCOutput 90] 100 = some 100 ∧
+    requestIssueHeight 100 [.holderHTLCOutput false 130] 100 = some 130 ∧
+    requestIssueHeight 100 [.holderHTLCOutput true 0] 100 = some 100 ∧
+    requestIssueHeight 100 [.counterpartyOfferedHTLCOutput 130] 100 = some 100 := by decide
+
+/-- **reissue_schedule** — for EVERY package, EVERY height `start` of its first issue, EVERY horizon and EVERY fee-estimator
+    trajectory `est` (a function of the height — anything): while the claim stays unconfirmed,
+    (a) it is issued at `start` and then re-issued at strictly later heights at most LOW_FREQUENCY_BUMP_INTERVAL apart
+        (`bump_progress` says how much sooner near a deadline);
+    (b) hence at EVERY height `t` of the horizon the version in flight is less than LOW_FREQUENCY_BUMP_INTERVAL blocks old;
+    (c) EVERY issue — first or timer-driven — carries a target feerate at least the estimator's floor-bounded answer at ITS
+        height: the claim catches up with any fee rise at the next timer expiry at the latest;
+    (d) the successive targets never decrease (range hypothesis of `package_feerate_trajectory_monotone`). -/
+theorem reissue_schedule (csh : Nat) (inputs : List PkgInput) (est : Nat → Nat) (start fuel : Nat) :
+    let hs := issueHeights csh inputs fuel start start
+    (0 < fuel → ∃ rest, hs = start :: rest) ∧
+    Stepwise (fun a b => a < b ∧ b ≤ a + LOW_FREQUENCY_BUMP_INTERVAL) hs ∧
+    (∀ t, start ≤ t → t < start + fuel → ∃ h ∈ hs, h ≤ t ∧ t < h + LOW_FREQUENCY_BUMP_INTERVAL) ∧
+    (issues csh inputs est start fuel).map (·.1) = hs ∧
+    (∀ hr ∈ issues csh inputs est start fuel, boundedSatPer1000Weight (est hr.1) ≤ hr.2) ∧
+    ((∀ h, 5 * boundedSatPer1000Weight (est h) ≤ U32_MAX) → (issueTargets est hs).Pairwise (· ≤ ·)) := by
+  intro hs
+  refine ⟨fun hf => issueHeights_head csh inputs fuel start start (Nat.le_refl _) (by omega),
+    issueHeights_chain csh inputs fuel start start (Nat.le_refl _),
+    fun t h1 h2 => issueHeights_cover csh inputs fuel start start (Nat.le_refl _) t h1 h2,
+    issues_heights csh inputs est start fuel, issues_ge_est csh inputs est start fuel, ?_⟩
+  intro hr
+  refine (package_feerate_trajectory_monotone 0 (issueCalls est hs) (Nat.zero_le _) ?_).1
+  intro p hp
+  obtain ⟨h, e⟩ := issueCalls_mem est hs p hp
+  rw [e]
+  exact hr h
+
+-- a preimage claim on the counterparty's commitment (expiry 160) first issued at 100: every 15, then 3, then every block;
+-- the estimator doubles at 130: the re-issue at 130 follows it
+example : issueHeights 160 [.counterpartyOfferedHTLCOutput 160] 62 100 100 =
+    [100, 115, 130, 145, 148, 151, 154, 157, 158, 159, 160, 161] := by decide
+example : issues 160 [.counterpartyOfferedHTLCOutput 160] (fun h => if h < 130 then 1000 else 2000) 100 40 =
+    [(100, 1000), (115, 1250), (130, 2000)] := by decide
+
+/-- **claim_in_time** — an inbound HTLC (expiry `c`) whose preimage the monitor holds from block `start` on, at least
+    CLTV_CLAIM_BUFFER blocks before the expiry, for ALL `c`, `start`, packages, estimator trajectories:
+    the monitor broadcasts its commitment at EXACTLY `hb = c − CLTV_CLAIM_BUFFER`; UNDER THE HYPOTHESES
+      (1) the commitment confirms within MAX_BLOCKS_FOR_CONF blocks of its broadcast (at `hc`), and
+      (2) `ConfirmsWithin`: a version of the HTLC claim issued — by the schedule that starts when the commitment confirms — at
+          a target at least the then-current estimate confirms within MAX_BLOCKS_FOR_CONF blocks,
+    the claim confirms at a height `hk ≤ c`: strictly before block `c + 1`, the first that may contain the counterparty's
+    timeout transaction (nLockTime `c`).  The two confirmation windows use up the buffer exactly
+    (CLTV_CLAIM_BUFFER = 2 × MAX_BLOCKS_FOR_CONF — re-proved against the generated constants). -/
+theorem claim_in_time (c start fuel : Nat) (est : Nat → Nat) (csh : Nat) (inputs : List PkgInput) (hb hc hk : Nat)
+    (hearly : start + CLTV_CLAIM_BUFFER ≤ c) (hon : goesOnchainAt c false true start fuel = some hb)
+    (hcommit : hb ≤ hc ∧ hc ≤ hb + MAX_BLOCKS_FOR_CONF)
+    (hclaim : ConfirmsWithin MAX_BLOCKS_FOR_CONF est (issues csh inputs est hc (c + 1 - hc)) hk) :
+    hb = c - CLTV_CLAIM_BUFFER ∧ hk ≤ c ∧ hk < c + 1 := by
+  have h36 : CLTV_CLAIM_BUFFER = 36 := rfl
+  have h18 : MAX_BLOCKS_FOR_CONF = 18 := rfl
+  have hbe : hb = c - CLTV_CLAIM_BUFFER := by
+    rw [(goes_onchain_when c start fuel).1] at hon
+    split at hon
+    · simp only [Option.some.injEq] at hon
+      rw [← hon, pf_nat_max_eq]
+      omega
+    · cases hon
+  have hfuel : 0 < c + 1 - hc := by omega
+  obtain ⟨rest, hhead⟩ := (reissue_schedule csh inputs est hc (c + 1 - hc)).1 hfuel
+  have hmem : hc ∈ issueHeights csh inputs (c + 1 - hc) hc hc := by rw [hhead]; exact List.mem_cons_self
+  obtain ⟨r, hr⟩ := issues_of_height csh inputs est hc (c + 1 - hc) hc hmem
+  have hge := issues_ge_est csh inputs est hc (c + 1 - hc) (hc, r) hr
+  have := hclaim (hc, r) hr hge
+  simp only at this
+  refine ⟨hbe, by omega, by omega⟩
+
+/-- **claim_in_time_received** — the arrival times the ChannelManager's own rule admits are early enough: a payment is
+    claimable only while `MppPart::check_onchain_timeout` is false (`height < cltv_expiry − HTLC_FAIL_BACK_BUFFER`); a preimage
+    released at such a height `p` reaches the monitor before block `p + 1`, which is at least CLTV_CLAIM_BUFFER before the
+    expiry — the premise `hearly` of `claim_in_time` with `start = p + 1`, with LATENCY_GRACE_PERIOD_BLOCKS − 1 blocks to spare. -/
+theorem claim_in_time_received (p c : Nat) (h : mppOnchainTimeout p c = false) :
+    (p + 1) + CLTV_CLAIM_BUFFER + (LATENCY_GRACE_PERIOD_BLOCKS - 1) ≤ c := by
+  have h36 : CLTV_CLAIM_BUFFER = 36 := rfl
+  have h39 : HTLC_FAIL_BACK_BUFFER = 39 := rfl
+  have h3 : LATENCY_GRACE_PERIOD_BLOCKS = 3 := rfl
+  unfold mppOnchainTimeout at h
+  simp only [ge_iff_le, decide_eq_false_iff_not, Nat.not_le] at h
+  omega
+
+/-- **claim_in_time_late** — a claim that starts at ANY height `s` (the counterparty's commitment confirmed at `s`, or the
+    preimage arrived at `s` after the closure: provide_payment_preimage issues at the current height) confirms by `s + n`
+    under `ConfirmsWithin n`; so it beats the counterparty's timeout whenever `s + n ≤ c`.  Nothing is promised for a
+    preimage that arrives later than that — the model does not pretend otherwise. -/
+theorem claim_in_time_late (s fuel n c hk : Nat) (est : Nat → Nat) (csh : Nat) (inputs : List PkgInput) (hf : 0 < fuel)
+    (hclaim : ConfirmsWithin n est (issues csh inputs est s fuel) hk) (hroom : s + n ≤ c) : hk ≤ s + n ∧ hk < c + 1 := by
+  obtain ⟨rest, hhead⟩ := (reissue_schedule csh inputs est s fuel).1 hf
+  have hmem : s ∈ issueHeights csh inputs fuel s s := by rw [hhead]; exact List.mem_cons_self
+  obtain ⟨r, hr⟩ := issues_of_height csh inputs est s fuel s hmem
+  have := hclaim (s, r) hr (issues_ge_est csh inputs est s fuel (s, r) hr)
+  simp only at this
+  omega
+
+/-- **claim_in_time_after_spike** — robustness: suppose NOTHING is known about confirmation before some height `t0` (fees
+    spiked, the first versions never confirm) and the hypothesis holds only for versions issued from `t0` on.  Because the
+    schedule re-issues at least every LOW_FREQUENCY_BUMP_INTERVAL blocks and every re-issue is at least at the then-current
+    estimate, the claim still confirms by `max s t0 + (LOW_FREQUENCY_BUMP_INTERVAL − 1) + n`. -/
+theorem claim_in_time_after_spike (s fuel t0 n hk : Nat) (est : Nat → Nat) (csh : Nat) (inputs : List PkgInput)
+    (hroom : Nat.max s t0 + LOW_FREQUENCY_BUMP_INTERVAL ≤ s + fuel)
+    (hclaim : ConfirmsWithinFrom t0 n est (issues csh inputs est s fuel) hk) :
+    hk ≤ Nat.max s t0 + (LOW_FREQUENCY_BUMP_INTERVAL - 1) + n := by
+  have hl : LOW_FREQUENCY_BUMP_INTERVAL = 15 := rfl
+  rw [pf_nat_max_eq] at hroom ⊢
+  obtain ⟨h, hm, h1, h2⟩ := (reissue_schedule csh inputs est s fuel).2.2.1 (max s t0 + 14) (by omega) (by omega)
+  obtain ⟨r, hr⟩ := issues_of_height csh inputs est s fuel h hm
+  have := hclaim (h, r) hr (by simp only; omega) (issues_ge_est csh inputs est s fuel (h, r) hr)
+  simp only at this
+  omega
+
+-- non-vacuity of the hypotheses: expiry 500, preimage from block 400 on; commitment out at 464, confirmed at 470; the claim
+-- schedule starts at 470 at the estimate 1000 and the claim confirms at 480
+example : goesOnchainAt 500 false true 400 200 = some 464 ∧
+    ConfirmsWithin MAX_BLOCKS_FOR_CONF (fun _ => 1000) (issues 500 [.holderHTLCOutput true 500] (fun _ => 1000) 470 31) 480 := by
+  refine ⟨by decide, ?_⟩
+  intro hr hmem _
+  have := (issueHeights_mem 500 [.holderHTLCOutput true 500] 31 470 470 (Nat.le_refl _) hr.1
+    (by rw [← issues_heights 500 _ (fun _ => 1000) 470 31]; exact List.mem_map.2 ⟨hr, hmem, rfl⟩)).1
+  have h18 : MAX_BLOCKS_FOR_CONF = 18 := rfl
+  omega
 
 end Ldk.C07
